@@ -480,3 +480,53 @@ Definition show_sres (o : option (val * state)) : string :=
   | Some (v, _) => show_val v
   | None => "none"
   end.
+
+(* ---------------------------------------------------------------- the package as the emission-order model sees it *)
+(* (Tr/Decls.v: every function is one declaration named after it that mentions
+   the functions it calls; used by the harness to compare the order of the
+   emitted file with the order the model of Decls computes) *)
+From GV Require Import Tr.Decls.
+
+Fixpoint scallees_e (e : cexpr) : list string :=
+  match e with
+  | CLit _ | CBool _ | CVar _ => []
+  | CBin _ a b => scallees_e a ++ scallees_e b
+  | CNot a => scallees_e a
+  | CCall f args => f :: scallees_a args
+  end
+with scallees_a (a : cargs) : list string :=
+  match a with
+  | CANil => []
+  | CACons e rest => scallees_e e ++ scallees_a rest
+  end.
+
+Definition scallees_o (eo : option cexpr) : list string := match eo with Some e => scallees_e e | None => [] end.
+
+Definition scallees_st (st : sstmt) : list string :=
+  match st with
+  | TLet _ e | TAsg _ e | TOpAsg _ _ e => scallees_e e
+  | TVarD _ _ eo => scallees_o eo
+  | TIncD _ _ => []
+  end.
+
+Fixpoint scallees_l (l : sloc) : list string :=
+  match l with
+  | LEnd => []
+  | LSimple st k => scallees_st st ++ scallees_l k
+  | LIfL c th el k => scallees_e c ++ scallees_l th ++ scallees_l el ++ scallees_l k
+  end.
+
+Fixpoint scallees_b (b : sbody) : list string :=
+  match b with
+  | SIfL c th el k => scallees_e c ++ scallees_l th ++ scallees_l el ++ scallees_b k
+  | SRet e => scallees_e e
+  | SLet _ e k | SAsg _ e k | SOpAsg _ _ e k => scallees_e e ++ scallees_b k
+  | SVarD _ _ eo k => scallees_o eo ++ scallees_b k
+  | SIncD _ _ k => scallees_b k
+  | SIfT c th el => scallees_e c ++ scallees_b th ++ scallees_b el
+  end.
+
+Definition sdecls_of (P : sprog) : list decl :=
+  map (fun fn => {| d_names := [sf_name fn]; d_deps := scallees_b (sf_body fn) |}) P.
+Definition spick (P : sprog) (order : list nat) : sprog :=
+  flat_map (fun i => match nth_error P i with Some fn => [fn] | None => [] end) order.
